@@ -82,7 +82,7 @@ def check_consts(name, consts, expanded):
         gmin, gmax = opt_num(b.get("MIN")), opt_num(b.get("MAX"))
         emin = e["min"] if e["hasMin"] else None
         emax = e["max"] if e["hasMax"] else None
-        if emax == -1:
+        if emax == -1 and e["kind"] != "numbers":
             emax = I64MAX   # SIZE(n..MAX): the generator writes MAX as i64::MAX
         # the Rust model has no open-ended range: MAX is carried as i64::MAX (and MIN as i64::MIN); same set of 64-bit values
         if emax is None and gmax == I64MAX and e["kind"] == "numbers":
@@ -107,6 +107,65 @@ def dev_class(case, dev):
             c["mode"] == "def" and c["t"]["k"] == "int" and c["t"]["named"] for c in t["comps"]):
         cls.add("ReparseDefaultIntegerLosesNamedNumbers")
     return cls
+
+
+def big_bounds(v, d, report, tier):
+    """INTEGER constraints with bounds of every magnitude up to 64 bits (IntMap.tla / MC_IntMap, numbers over Big.tla, which
+    TLC's own integers cannot carry): model round trip, and MIN / MAX / EXTENSIBLE of the expansion equal the declared bounds."""
+    from props import c15
+    ks = [0, 1, 7, 8, 15, 16, 31, 32, 33, 47, 62] if tier == "quick" else list(range(0, 63, 3)) + [31, 32, 62]
+    vec = os.path.join(d, "intmap.ndjson")
+    t = vlib.run_tlc("C08", "MC_IntMap", "SPECIFICATION Spec\nCONSTANTS\n  Dev = {}\n  KS = {%s}\n  Small = 2\nINVARIANTS Sound Emit\nCHECK_DEADLOCK FALSE\n"
+                     % ", ".join(map(str, sorted(set(ks)))), replay_to=vec, coverage=False, heap="4g", timeout=3600)
+    if t.violation:
+        raise ToolError("IntMap.tla: " + t.violation)
+    v.add_tlc("MC_IntMap", t)
+    cases = vlib.read_ndjson(vec)
+    if not cases or len(cases) != t.nreplay:
+        raise ToolError("MC_IntMap printed nothing")
+    I64MAX, I64MIN = 9223372036854775807, -9223372036854775808
+    n = 0
+    for lo in range(0, len(cases), 400):
+        chunk = cases[lo:lo + 400]
+        asn = "Bb DEFINITIONS AUTOMATIC TAGS ::= BEGIN\n" + "\n".join("B%d ::= %s" % (i + 1, c15.constraint_text(c)) for i, c in enumerate(chunk)) + "\nEND\n"
+        rows = felib.pipeline([asn], d, tag="bb_%d" % lo)
+        if isinstance(rows, dict) or (rows and "error" in rows[0]):
+            report(None, "the pipeline fails on a module of INTEGER definitions: %s" % str(rows)[:300], {"module": asn, "result": rows}, "bigmodule_%03d.json")
+            continue
+        by = {r["name"]: r for r in rows}
+        for i, c in enumerate(chunk):
+            nm = "B%d" % (i + 1)
+            lb = c15.big(c["lb"]) if c["hasLb"] else None
+            ub = c15.big(c["ub"]) if c["hasUb"] else None
+            txt = "%s ::= %s" % (nm, c15.constraint_text(c))
+            # the pseudo definition the deviation classes are decided on (dev_class looks at hasLb / hasUb)
+            case = {"ast": {"name": nm, "t": {"k": "int", "hasLb": c["hasLb"], "hasUb": c["hasUb"], "ext": c["ext"], "named": []}}}
+            r = by.get(nm)
+            n += 1
+            if r is None:
+                report(case, "no generated definition for %s" % txt, {"asn1": txt}, "bigmissing_%03d.json")
+                continue
+            if r["reparsed"].startswith("ERROR") or r["expanded"].startswith("ERROR"):
+                report(case, "the attribute parser / expansion fails for %s: %s" % (txt, (r["reparsed"] + r["expanded"])[:200]),
+                       {"asn1": txt, "generated": r["generated"]}, "bigreparse_%03d.json")
+                continue
+            # "same constraints": an upper bound of MAX is carried as None by the generator's model and as the number 2^63 - 1 by the
+            # attribute parser ("..max") - the same set of values of the 64-bit types (see DESIGN.md 11.4)
+            open_max = lambda s: re.sub(r"((?:U64|I64)\(Range\((?:Some\(-?\d+\)|None), )None(, (?:true|false)\)\))", r"\1Some(9223372036854775807)\2", s)
+            if open_max(r["rust"]) != open_max(r["reparsed"]):
+                report(case, "re-parsed Rust model differs from the generator's model for %s" % txt,
+                       {"asn1": txt, "generated": r["generated"], "generator_model": r["rust"], "reparsed_model": r["reparsed"]}, "bigmodel_%03d.json")
+                continue
+            # the model has no open-ended range: (0..MAX), (MIN..MAX) and their spellings with the 64-bit limits are "no constraint"
+            whole = (lb in (None, 0, I64MIN)) and (ub in (None, I64MAX))
+            consts = {"kind": "wrapper", "set": False, "stdOptionalFields": 0, "fieldCount": 1, "extendedAfterField": -1, "defaults": [],
+                      "pos": [{"field": "0", "depth": 0, "kind": "numbers", "hasMin": lb is not None and not whole, "min": lb or 0,
+                               "hasMax": ub is not None and not whole, "max": ub or 0, "ext": c["ext"]}]}
+            diffs = check_consts(nm, consts, r["expanded"])
+            if diffs:
+                report(case, "descriptor constants differ from the source constraint of %s: %s" % (txt, "; ".join(diffs)[:300]),
+                       {"asn1": txt, "expected": consts, "differences": diffs, "generated": r["generated"]}, "bigconsts_%03d.json")
+    return n
 
 
 def run(v):
@@ -203,6 +262,9 @@ def run(v):
                 report(owner, "re-parsed Rust model differs from the generator's model for the generated definition %s" % r["name"],
                        {"generated": r["generated"], "generator_model": r["rust"], "reparsed_model": r["reparsed"],
                         "owner": owner and asnprint.definition(owner["ast"])}, "deep_%03d.json")
+    nbig = big_bounds(v, d, report, v.tier)
+    checked += nbig
+    v.cov["big_bound_definitions"] = nbig
     # ---- the mutation-free corpus of the repository's own test modules: model round trip only ----
     ncorpus = 0
     for i, text in enumerate(c13.corpus()):
